@@ -1,5 +1,8 @@
 use std::net;
+#[cfg(not(uflow_verif))]
 use std::time;
+#[cfg(uflow_verif)]
+use crate::verif::vtime as time;
 
 use crate::CHANNEL_COUNT;
 use crate::EndpointConfig;
@@ -12,6 +15,9 @@ use crate::MAX_PACKET_WINDOW_SIZE;
 use crate::PROTOCOL_VERSION;
 use crate::SendMode;
 use crate::udp_frame_sink::UdpFrameSink;
+
+#[cfg(uflow_verif)]
+use crate::verif::vrand as rand;
 
 static HANDSHAKE_RESEND_INTERVAL_MS: u64 = 2000;
 static HANDSHAKE_RESEND_COUNT: u8 = 10;
